@@ -116,6 +116,10 @@ impl<R: Read + Seek> ReadBox<&mut R> for MetaBox {
             let header = BoxHeader::read(reader)?;
             let BoxHeader { name, size: s } = header;
 
+            if s == 0 {
+                return Err(Error::InvalidData("meta box contains a box with size 0"));
+            }
+
             match name {
                 BoxType::HdlrBox => {
                     hdlr = Some(HdlrBox::read_box(reader, s)?);
@@ -146,6 +150,10 @@ impl<R: Read + Seek> ReadBox<&mut R> for MetaBox {
                     let header = BoxHeader::read(reader)?;
                     let BoxHeader { name, size: s } = header;
 
+                    if s == 0 {
+                        return Err(Error::InvalidData("meta box contains a box with size 0"));
+                    }
+
                     match name {
                         BoxType::IlstBox => {
                             ilst = Some(IlstBox::read_box(reader, s)?);
@@ -168,6 +176,10 @@ impl<R: Read + Seek> ReadBox<&mut R> for MetaBox {
                     // Get box header.
                     let header = BoxHeader::read(reader)?;
                     let BoxHeader { name, size: s } = header;
+
+                    if s == 0 {
+                        return Err(Error::InvalidData("meta box contains a box with size 0"));
+                    }
 
                     match name {
                         BoxType::HdlrBox => {
